@@ -108,6 +108,13 @@ def modelcheck(kripke, formula, parser=None, F=None):
     if not isinstance(kripke, Kripke):
         raise TypeError('expected a Kripke structure, got {}'.format(kripke))
 
+    if not isinstance(formula, Formula):
+        try:
+            formula = formula.cast_to(sys.modules[__name__])
+        except Exception:
+            raise TypeError('expected a CTL* state formula, ' +
+                            'got {}'.format(formula))
+
     try:
         kripkeC = kripke.clone()
 
